@@ -294,7 +294,7 @@ int muggle_log_file_time_rot_handler_init(
 	handler->filepath[sizeof(handler->filepath) - 1] = '\0';
 
 	handler->last_sec = time(NULL);
-	if (handler->use_local_time)
+	if (use_local_time)
 	{
 		localtime_r(&handler->last_sec, &handler->last_tm);
 	}
